@@ -104,7 +104,15 @@ def run_program(prog, scratch, k=0, sample_rate=None, rng_seed=None, accept=None
     except SyntaxError as e:
         raise core.HarnessError(f"synthesiser produced invalid source: {e}\n{src}")
     name, path = scratch.new_module(src)
-    R = S.Rec(typer=(lambda v: get_type(v, k)) if typer == "k" else typer)
+    def _type_of(v):
+        # "the type of this value" for the ground truth; if type inference itself raises (C04's business) the value gets a
+        # marker type that no logged trace can match, so the run ends in a violation here rather than in a harness error
+        try:
+            return get_type(v, k)
+        except Exception as e:
+            return type("TypeInferenceRaised_" + type(e).__name__, (), {})
+
+    R = S.Rec(typer=_type_of if typer == "k" else typer)
     S.R = R
     res = Result()
     res.src, res.R, res.name, res.path = src, R, name, path
